@@ -982,6 +982,12 @@ func (d *duration) Apply(key string, value interface{}, ctx *rdf.ParsingContext)
 							),
 						),
 					),
+					jen.If(
+						jen.Id("s").Op("==").Lit("P"),
+					).Block(
+						jen.Commentf("A zero duration still needs one component to be a valid xsd:duration."),
+						jen.Id("s").Op("=").Lit("PT0S"),
+					),
 					jen.Return(
 						jen.Id("s"),
 						jen.Nil(),
